@@ -674,46 +674,58 @@ def corr_case_elem(seed, drv, res, kind=None):
     if md0 != before:
         return      # reported by corr_case_gen
     rk = rng.choice(ELEM_KINDS)
-    kind = kind or rk
-    labs = sorted(W.objs[kind])
-    if not labs:
-        return
-    xl = rng.choice(labs)
-    x = W.objs[kind][xl]
-    inp = {"seed": seed, "what": "correlem", "kind": kind, "label": xl}
-    off = max(W.counts().values()) + 1
-    try:
-        c = x.clone()
-    except Exception as e:
-        import traceback
-        tb = traceback.extract_tb(e.__traceback__)
-        site = next((f for f in reversed(tb) if "/spydrnet/" in f.filename), tb[-1])
-        res.spec_failure("%s.clone.raises.%s@%s:%s" % (kind, type(e).__name__, os.path.basename(site.filename), site.name), inp, repr(e)[:200])
-        return
-    W.keep.append(c)
-    if not label_elem_clone(W, kind, x, c, off):
-        res.spec_failure("%s.clone.not_identical" % kind, inp, "shape of the copy differs (parallel traversal failed)")
-        return
-    after = dump_impl(W)
-    m = drv.ask({"cmd": "cloneElem", "kind": kind, "x": xl, "off": off})
-    if any(r != "ok" for r in m.get("res", ["?"])):
-        res.corr_mismatch("S.cloneElem: every call of the prune script is accepted by the model", inp, "n/a", m.get("res"))
-        return
-    md = canon_model_dump(drv.ask({"cmd": "dump", "n": W.counts()}))
-    exist_i = set(W.objs["instance"])
-    bad = []
-    for k2 in after:
-        for lab2, rec in enumerate(after[k2]):
-            if lab2 not in W.objs[k2]:
-                continue
-            mrec = md[k2][lab2] if lab2 < len(md[k2]) else None
-            if mrec is not None and k2 == "definition":
-                mrec = dict(mrec, refs=[i for i in mrec["refs"] if i in exist_i])
-            if rec != mrec:
-                bad.append((k2, lab2, rec, mrec))
-    if bad:
-        res.corr_mismatch("%s.clone = S.cloneElem (double + prune script) on a generated netlist" % kind.capitalize(), inp,
-                          [b[:3] for b in bad[:3]], [b[3] for b in bad[:3]])
+    kind0 = kind or rk
+    n_rounds = 1 + (rng.random() < 0.4)
+    # a second clone in the same process on the same netlist (another element, any kind): state kept by the
+    # library between two clone() calls must not leak into the second copy
+    next_off = 0
+    for rnd in range(n_rounds):
+        kind = kind0 if rnd == 0 else rng.choice(ELEM_KINDS)
+        labs = sorted(l for l in W.objs[kind] if rnd == 0 or l < first_off)      # second round: clone an ORIGINAL again
+        if not labs:
+            break
+        xl = rng.choice(labs)
+        x = W.objs[kind][xl]
+        inp = {"seed": seed, "what": "correlem", "kind": kind0, "round": rnd, "round_kind": kind, "label": xl}
+        off = max(max(W.counts().values()) + 1, next_off)
+        if rnd == 0:
+            first_off = off
+        next_off = 2 * off            # the model's unobservable twins occupy [off, 2*off)
+        try:
+            c = x.clone()
+        except Exception as e:
+            import traceback
+            tb = traceback.extract_tb(e.__traceback__)
+            site = next((f for f in reversed(tb) if "/spydrnet/" in f.filename), tb[-1])
+            res.spec_failure("%s.clone.raises.%s@%s:%s" % (kind, type(e).__name__, os.path.basename(site.filename), site.name), inp, repr(e)[:200])
+            return
+        W.keep.append(c)
+        if not label_elem_clone(W, kind, x, c, off):
+            res.spec_failure("%s.clone.not_identical" % kind, inp, "shape of the copy differs (parallel traversal failed)")
+            return
+        after = dump_impl(W)
+        m = drv.ask({"cmd": "cloneElem", "kind": kind, "x": xl, "off": off})
+        if any(r != "ok" for r in m.get("res", ["?"])):
+            res.corr_mismatch("S.cloneElem: every call of the prune script is accepted by the model", inp, "n/a", m.get("res"))
+            return
+        md = canon_model_dump(drv.ask({"cmd": "dump", "n": W.counts()}))
+        exist_i = set(W.objs["instance"])
+        bad = []
+        for k2 in after:
+            for lab2, rec in enumerate(after[k2]):
+                if lab2 not in W.objs[k2]:
+                    continue
+                mrec = md[k2][lab2] if lab2 < len(md[k2]) else None
+                if mrec is not None and k2 == "definition":
+                    mrec = dict(mrec, refs=[i for i in mrec["refs"] if i in exist_i])
+                if rec != mrec:
+                    bad.append((k2, lab2, rec, mrec))
+        if bad:
+            res.corr_mismatch("%s.clone = S.cloneElem (double + prune script) on a generated netlist%s" % (kind.capitalize(), "" if rnd == 0 else " (second clone in the same process)"), inp,
+                              [b[:3] for b in bad[:3]], [b[3] for b in bad[:3]])
+            return
+        res.dist("clone:correlem:round%d:%s" % (rnd, kind))
+    kind = kind0
     res.case(stable_hash([seed, "correlem", kind]), nontrivial=True)
     res.dist("clone:correlem:" + kind)
 
